@@ -209,6 +209,28 @@ func c15Source(r *fw.Rec, s corpus.Source) {
 	// of two instructions (two users built on a shared list) makes a write through
 	// one of them change the other
 	owner := map[*value.Value]string{}
+	// the operand lists themselves are kept until all have been asked for: a list
+	// handed out is the caller's, a later Operands() call (of this or another user)
+	// must not rewrite it
+	type heldList struct {
+		me       string
+		ops, was []*value.Value
+	}
+	var held []heldList
+	defer func() {
+		for _, h := range held {
+			same := len(h.ops) == len(h.was)
+			for i := 0; same && i < len(h.ops); i++ {
+				same = h.ops[i] == h.was[i]
+			}
+			if !same {
+				r.Violate(fw.Violation{Key: "list-rewritten-by-later-call/" + strings.SplitN(h.me, " ", 2)[0], Input: text,
+					What: fmt.Sprintf("the operand list returned for `%s` no longer holds the slots it was returned with after Operands() was called on other users of the module", h.me)})
+				return
+			}
+		}
+		r.TallyN("slots", "lists-held-while-others-were-asked-for", len(held))
+	}()
 	for _, f := range m.Funcs {
 		for _, b := range f.Blocks {
 			users := make([]interface{}, 0, len(b.Insts)+1)
@@ -228,6 +250,7 @@ func c15Source(r *fw.Rec, s corpus.Source) {
 					continue
 				}
 				me := fmt.Sprintf("%s in %s: %s", kindOf(u), f.Ident(), fw.Trunc(u.(llstringer).LLString(), 120))
+				held = append(held, heldList{me, ops, append([]*value.Value(nil), ops...)})
 				for _, p := range ops {
 					if prev, dup := owner[p]; dup && prev != me {
 						r.Violate(fw.Violation{Key: "shared-slot/" + kindOf(u), Input: text,
@@ -372,7 +395,8 @@ func c15User(r *fw.Rec, id, text string, f *ir.Func, u interface{}) {
 		}
 		r.Tally("liveness", "slot-live")
 	}
-	c15AfterSliceEdit(r, text, u)
+	c15AfterSliceEdit(r, text, u, false)
+	c15AfterSliceEdit(r, text, u, true)
 }
 
 // c15AfterSliceEdit re-checks completeness after the user's operand-holding
@@ -380,7 +404,10 @@ func c15User(r *fw.Rec, id, text string, f *ir.Func, u interface{}) {
 // objects where the elements are pointers, e.g. phi.Incs[i] =
 // ir.NewIncoming(...)): Operands() must describe the slots as they are now, not
 // as they were when it was first called.
-func c15AfterSliceEdit(r *fw.Rec, text string, u interface{}) {
+// With lastOnly, only the last entry of every list of two or more entries is
+// replaced, in place (`x.Incs[1] = ir.NewIncoming(...)`): the list itself and its
+// first entry stay what they were.
+func c15AfterSliceEdit(r *fw.Rec, text string, u interface{}, lastOnly bool) {
 	op := u.(operander)
 	kind := kindOf(u)
 	rv := reflect.ValueOf(u)
@@ -406,6 +433,18 @@ func c15AfterSliceEdit(r *fw.Rec, text string, u interface{}) {
 			continue
 		}
 		if name := st.Type().Field(i).Name; name == "Metadata" || name == "Successors" {
+			continue
+		}
+		if lastOnly {
+			if !isPtrStruct || f.Len() < 2 || f.Index(f.Len()-1).IsNil() {
+				continue
+			}
+			last := f.Index(f.Len() - 1)
+			ne := reflect.New(et.Elem())
+			ne.Elem().Set(last.Elem())
+			undo = append(undo, saved{last, reflect.ValueOf(last.Interface())})
+			last.Set(ne)
+			edited++
 			continue
 		}
 		cp := reflect.MakeSlice(f.Type(), f.Len(), f.Len())
